@@ -1995,6 +1995,21 @@ int32 parseServerKeyExchange(ssl_t *ssl,
                 ssl->err = SSL_ALERT_ILLEGAL_PARAMETER;
                 psTraceErrr("Unsupported ECDHE group in SKE\n");
                 psTraceIntInfo("Group ID: %d\n", i);
+                return MATRIXSSL_ERROR;
+            }
+            /* The server must pick one of the curves our ClientHello listed
+               in supported_groups / elliptic_curves: the TLS 1.3 style hello
+               lists tls13SupportedGroups, the legacy one our ecFlags. */
+            if (
+#   ifdef USE_TLS_1_3
+                SUPP_VER(ssl, v_tls_1_3_any) ?
+                !tls13WeSupportGroup(ssl, (uint16_t) i) :
+#   endif
+                (psTestUserEcID(i, ssl->ecInfo.ecFlags) != PS_SUCCESS))
+            {
+                ssl->err = SSL_ALERT_ILLEGAL_PARAMETER;
+                psTraceIntInfo("Server chose a curve we did not offer: %d\n", i);
+                return MATRIXSSL_ERROR;
             }
             ssl->sec.peerCurveId = i;
 
